@@ -7,6 +7,7 @@ from .._adapter.adapter import AdapterContext
 from .._adapter.adapter import get_adapter_type
 from .._change import Change
 from .._code_repr import code_repr
+from .._compare_context import compare_only
 from .._exceptions import UsageError
 from .._global_state import state
 from .._sentinels import undefined
@@ -46,7 +47,8 @@ class GenericValue(Snapshot):
 
     def _return(self, result, new_result=True):
 
-        if not result:
+        if not result and not compare_only():
+            # comparisons which are only used to align a list are no results of the test
             state().incorrect_values += 1
         flags = state().update_flags
 
